@@ -2,7 +2,7 @@
 From Coq Require Import ZArith List Bool Lia.
 From Verif Require Import Base.Wrap Base.Bytes Gen.GenConsts Gen.GenFrame Gen.GenRelayFwd
   Model.TypedBuf Model.Messages Model.Crc Model.RelayLazy Model.RelayAppend Model.RelayFwd
-  Spec.RelaySpec Proofs.RelayFwdP Proofs.RelayInvP.
+  Model.Frag Model.FragWire Spec.RelaySpec Proofs.RelayFwdP Proofs.RelayInvP.
 Import ListNotations.
 Local Open Scope Z_scope.
 
@@ -46,3 +46,24 @@ Proof.
   exact (run_inv maxT pc cnt0 ls outs st H0 R B).
 Qed.
 
+
+(* a protocol-valid first fragment whose arg1 continues in the next frame *)
+Definition tiny_first : list Z :=
+  [1] ++ [0;0;3;232] ++ repeat 0 25 ++ [1; 115] ++ [0] ++ [0] ++ [0;2; 97;98].
+
+Lemma tiny_frame_dropped : exists p h,
+  bytes_ok p = true /\
+  (exists f, parse_frag_payload c_messageTypeCallReq p = (0, f) /\ f_more f = true /\ f_chunks f = [[97; 98]]) /\
+  fst (lazy_callreq p) <> 0 /\
+  fh_type h = c_messageTypeCallReq /\
+  (exists st', step 120000000000 false (init_state (fun _ => 1)) (LFrame 0%nat h p (HDst 1%nat [])) = Some ([], st')) /\
+  (exists o ss', spec_step 120000 (mkSS [] (fun _ => 1)) (LFrame 0%nat h p (HDst 1%nat [])) = Some ([o], ss')).
+Proof.
+  exists tiny_first, (mkFH (16 + zlen tiny_first) 3 0 7).
+  split; [vm_compute; reflexivity|].
+  split; [eexists; split; [vm_compute; reflexivity|split; reflexivity]|].
+  split; [vm_compute; discriminate|].
+  split; [reflexivity|].
+  split; [eexists; vm_compute; reflexivity|].
+  eexists. eexists. vm_compute. reflexivity.
+Qed.
